@@ -987,6 +987,12 @@ func classifySched(p *pkgInfo) {
 			if !ok || fd.Body == nil {
 				continue
 			}
+			if fd.Recv == nil && fd.Name.Name == "init" {
+				// package initialisation runs single-threaded before any
+				// goroutine of the harness exists: what only init() writes is
+				// read-only for every execution that is explored
+				continue
+			}
 			al := p.aliasesIn(fd.Body)
 			ast.Inspect(fd.Body, func(x ast.Node) bool {
 				if st, ok := x.(ast.Stmt); ok {
